@@ -1,6 +1,6 @@
 #!/usr/bin/env python3
 """C02 guard: every safe `pub fn` (and generated field accessor) of the view types must be named in
-the repository's exerciser list or in /verif/harness/sciparse/c02_views.rs; otherwise the C02 check
+the repository's SCMP/UDP exerciser lists (the ones a quick harness runs) or in /verif/harness/sciparse/c02_views.rs; otherwise the C02 check
 is inconclusive (exit 2) instead of silently losing coverage. Not a verdict: a coverage guard."""
 import re, sys
 from pathlib import Path
@@ -24,7 +24,12 @@ def scan(repo):
         for m in re.finditer(r"gen_field_(?:read|write)!\(\s*(\w+)\s*,", text):
             names.setdefault(m.group(1), vf)
     used = ""
-    for f in list((src / "util/fuzz").rglob("*.rs")) + [Path("/verif/harness/sciparse/c02_views.rs")]:
+    # only the exerciser lists that a registered harness really runs count: the SCMP and UDP payload
+    # exercisers (quick tier). The header, packet and path exercisers gave no CBMC verdict (tier=off
+    # / thorough only), so their accessors must be named in the C02 harness file itself.
+    fz = src / "util/fuzz/view_function_checks"
+    run_lists = [fz / "payload.rs", fz / "payload/udp.rs", fz / "payload/scmp.rs"]
+    for f in run_lists + [Path("/verif/harness/sciparse/c02_views.rs")]:
         if f.is_file():
             used += f.read_text()
     ignore = {"new", "fmt", "next", "len", "is_empty", "iter", "size_hint", "annotations"}
